@@ -38,10 +38,52 @@ Definition lend_apr (borrow u rf : Z) : option Z :=
   obindr (dmul_c borrow u) (fun x => dmul_c x mf)).
 Definition lend_val (borrow u rf : Z) : Z := dmul (dmul borrow u) (P18 - rf).
 
-(* ---- known-finding class: AssetRatesParams.Validate (lend/types/pair.go:63) only rejects
-   UOptimal <= 0; UOptimal = 1 makes the second branch divide by 1 - UOptimal = 0 when the pool
-   is fully utilised ---- *)
-Definition kf_C18_1 (uopt : Z) : bool := P18 <=? uopt.
+(* ---- the stored rate parameters and their validation ----
+   lend/types/pair.go AssetRatesParams.Validate (59-106), check for check.  After the repair of
+   C18-F1 it also rejects UOptimal >= 1 (before, only UOptimal <= 0 was rejected and UOptimal = 1
+   made the second branch of the curve divide by 1 - UOptimal = 0 in a fully utilised pool). *)
+Record rate_params := mkRP {
+  rp_asset : Z; rp_uopt : Z; rp_base : Z; rp_s1 : Z; rp_s2 : Z;
+  rp_sbase : Z; rp_ss1 : Z; rp_ss2 : Z;
+  rp_liqthr : Z; rp_liqbonus : Z; rp_liqpen : Z; rp_ltv : Z; rp_rf : Z; rp_casset : Z }.
+
+Definition rates_valid (p : rate_params) : bool :=
+  negb (rp_asset p =? 0) &&
+  negb (rp_uopt p <=? 0) && negb (P18 <=? rp_uopt p) &&
+  negb (rp_base p <=? 0) && negb (rp_s1 p <=? 0) && negb (rp_s2 p <=? 0) &&
+  negb (rp_sbase p <? 0) && negb (rp_ss1 p <? 0) && negb (rp_ss2 p <? 0) &&
+  negb (rp_liqthr p <=? 0) && negb (rp_liqbonus p <=? 0) && negb (rp_liqpen p <=? 0) &&
+  negb (rp_ltv p <=? 0) && negb (rp_rf p <=? 0) &&
+  negb (rp_casset p =? 0).
+
+(* AssetRatesPoolPairs.Validate (115-166): the same checks, then len(CPoolName) < 20 and
+   AssetData != nil *)
+Definition pool_pairs_valid (p : rate_params) (name_len : Z) (has_data : bool) : bool :=
+  rates_valid p && (name_len <? 20) && has_data.
+
+(* keeper.AddAssetRatesParams (lend/keeper/pair.go), the function behind the governance handler:
+   Validate, then SetAssetRatesParams.  Ok p = the record now in the store; Err 1 = rejected,
+   nothing written. *)
+Definition add_rates_params (p : rate_params) : outcome rate_params :=
+  if rates_valid p then Ok p else Err 1.
+(* keeper.AddAssetRatesPoolPairs up to the write of the parameters: Validate, then "already
+   exists" (Err 2) *)
+Definition add_rates_pool_pairs (p : rate_params) (name_len : Z) (has_data exists_ : bool) : outcome rate_params :=
+  if pool_pairs_valid p name_len has_data then (if exists_ then Err 2 else Ok p) else Err 1.
+
+(* GetBorrowAPRByAssetID(poolID, assetID, IsStableBorrow) at utilisation u *)
+Definition borrow_apr (p : rate_params) (stable : bool) (u : Z) : option Z :=
+  if stable then kink_apr u (rp_uopt p) (rp_sbase p) (rp_ss1 p) (rp_ss2 p)
+  else kink_apr u (rp_uopt p) (rp_base p) (rp_s1 p) (rp_s2 p).
+(* GetLendAPRByAssetIDAndPoolID at utilisation u *)
+Definition lend_apr_p (p : rate_params) (u : Z) : option Z :=
+  obindr (borrow_apr p false u) (fun b => lend_apr b u (rp_rf p)).
+
+(* magnitudes for which no intermediate Dec leaves the 315-bit range *)
+Definition RATE_MAX : Z := 2 ^ 128.
+Definition rates_bounded (p : rate_params) : bool :=
+  (rp_base p <? RATE_MAX) && (rp_s1 p <? RATE_MAX) && (rp_s2 p <? RATE_MAX) &&
+  (rp_sbase p <? RATE_MAX) && (rp_ss1 p <? RATE_MAX) && (rp_ss2 p <? RATE_MAX) && (rp_rf p <? RATE_MAX).
 
 (* ---- property predicates on the implementation's observations ---- *)
 Definition holds_C18_rate_base (u base apr : Z) : bool := negb (u =? 0) || (apr =? base).
@@ -49,4 +91,10 @@ Definition holds_C18_rate_monotone (u1 apr1 u2 apr2 : Z) : bool := negb (u1 <=? 
 (* continuity at the kink: 0 <= apr(uopt) - apr(uopt - 1ulp) <= 2*s1/uopt + 1 (in ulps) *)
 Definition holds_C18_rate_kink (uopt s1 apr_at apr_below : Z) : bool :=
   (apr_below <=? apr_at) && ((apr_at - apr_below) * uopt <=? 2 * s1 + uopt).
-Definition holds_C18_lend_le_borrow (lend borrow : Z) : bool := (0 <=? lend) && (lend <=? borrow).
+(* lend <= borrow; and lend >= 0 when the reserve factor is at most 1 (Validate does not bound it
+   above: with a reserve factor > 1 the lend rate is negative, still below the borrow rate) *)
+Definition holds_C18_lend_le_borrow (rf lend borrow : Z) : bool :=
+  (lend <=? borrow) && (negb (rf <=? P18) || (0 <=? lend)).
+(* the rate is defined (no panic) wherever the implementation accepted the parameters *)
+Definition holds_C18_rate_defined (accepted bounded : bool) (u : Z) (panicked : bool) : bool :=
+  negb (accepted && bounded && (0 <=? u) && (u <=? P18)) || negb panicked.
